@@ -100,6 +100,7 @@ except ImportError:
         NDArray = ndarray[t.Any, dtype[ScalarType]]
 
         # dummy handler
+        # (same parameters as the real one. The annotation is a string: `ConverterHandlers` is no name here)
         def numpy_converter_handler(ty: t.Any, args: t.Sequence[t.Any], *,
-                                    custom: t.Optional[ConverterHandlers] = None):
+                                    handlers: 'ConverterHandlers'):
             return NotImplemented
